@@ -163,6 +163,31 @@ func Check(c Case) (fs []core.Finding) {
 			fs = append(fs, core.F("unwrap/differs("+c.Type+")", "%s: unwrapped Go value holds %s", where, got))
 		}
 	}
+	// 2b. the wrapped node itself assigned to a fresh builder of the same Go and schema types (type
+	// level: AssignNode of the typed node; representation level: of its representation) and unwrapped
+	for _, lvl := range []string{"type", "repr"} {
+		var got ref.Val
+		var aerr error
+		pan := core.Guard(func() {
+			proto := bindnode.Prototype(e.New(), typ)
+			var nb datamodel.NodeBuilder = proto.NewBuilder()
+			var src datamodel.Node = n
+			if lvl == "repr" {
+				nb, src = proto.Representation().NewBuilder(), n.Representation()
+			}
+			if aerr = nb.AssignNode(src); aerr == nil {
+				got = e.View(bindnode.Unwrap(nb.Build()))
+			}
+		})
+		switch {
+		case pan != "":
+			fs = append(fs, core.F("assign-wrapped/"+lvl+"/panic("+c.Type+"|"+core.Class(pan)+")", "%s: %s", where, pan))
+		case aerr != nil:
+			fs = append(fs, core.F("assign-wrapped/"+lvl+"/rejects-own-node("+c.Type+"|"+core.Class(aerr.Error())+")", "%s: %v", where, aerr))
+		case !ref.Equal(got, want):
+			fs = append(fs, core.F("assign-wrapped/"+lvl+"/differs("+c.Type+")", "%s: unwrapped Go value holds %s", where, got))
+		}
+	}
 	// 3. marshal / unmarshal into a fresh value
 	for _, cd := range []struct {
 		name string
